@@ -146,12 +146,15 @@ def _one(t):
         m.call(SET_PATH, [Ptr(V.PDU, 0), Ptr('pathobj', 0)])
         m.call(SET_DATA, [Ptr(V.PDU, 0), Ptr('val', 0)])
         return None
-    ws = bpa.analyse(ctx.mod, script, lambda: ([], regions()), max_worlds=32, max_steps=12000000, gcache=ctx.gcache)
+    ws = bpa.analyse(ctx.mod, script, lambda: ([], regions()), max_worlds=32, max_steps=12000000, gcache=ctx.gcache, oob_limit=0)
     desc = '%s path (%d octets) + %s x%d' % ('static-id' if mode == V.STATIC else 'interop', plen, name, count)
     key = 'encode:m%d:p%d:t%02x:n%d' % t
     where = FC.fnloc(ctx, SET_DATA)
     oks, err = FC.ok_worlds(ws)
     if err:
+        df = FC.definite_fault(ws)
+        if df:
+            return [('violation', key + ':fault', '%s [%s]: %s' % (where, desc, df))], 0
         return [('undecided', key, '%s [%s]: %s' % (where, desc, err))], 0
     out = []
     for w in oks:
@@ -216,7 +219,18 @@ def run(ctx, tier, res, tag=''):
     for fn in (SET_PATH, SET_DATA):
         ctx.fn(fn)
     sh = shapes(tier)
-    outs = pmap(_one, sh)
+    # light shapes first; the heavy ones (messages of several thousand octets) only if the light ones hold - on a
+    # broken tree they fail the same way and cost minutes each, and the verdict is a violation already
+    def weight(t):
+        return V.path_wire_len(t[0], t[1]) + V.data_wire_len(t[2], t[3])
+    light = [t for t in sh if weight(t) <= 4096]
+    heavy = [t for t in sh if weight(t) > 4096]
+    outs1 = pmap(_one, light)
+    if any(issues for (issues, n_ok) in outs1) and heavy:
+        res.notes.append('%d large %s shapes were not analysed%s: smaller shapes already fail' % (len(heavy), 'encode', tag))
+        sh, outs = light, outs1
+    else:
+        sh, outs = light + heavy, outs1 + pmap(_one, heavy)
     for t, (issues, n_ok) in zip(sh, outs):
         res.count('encode shapes analysed (mode x path length x datatype x count)' + tag)
         res.ok(n_ok)
